@@ -74,6 +74,19 @@ FLAVOURS[12] = ("This round, write a well-meaning BUG-FIX pull request (not a si
                 "makes two code paths consistent in the WRONG direction. The break of the property must come from that side effect, "
                 "must need something specific to manifest, and must differ in mechanism from the earlier changes listed above.")
 
+FLAVOURS[13] = ("This round, the change is an otherwise reasonable small commit (refactoring, feature, fix or clean-up of 5-40 lines, with a "
+                "'commit_message' in meta.json) that falls into a CLASSIC PYTHON PITFALL, and the pitfall is what breaks the property: "
+                "`x or default` where 0, 0.0, '' or an empty list is a legitimate value; `is` / `==` confusion; truthiness of a "
+                "container or a parse node; late-binding closures in a loop; a generator or iterator consumed twice; dict / set "
+                "iteration order or `sorted()` on mixed keys; `str.strip('abc')` / `lstrip` / `rstrip` taken for prefix removal; "
+                "`str.split()` vs `split(' ')`; `int()` / `round()` / `//` / `%` on negative or half values; float formatting and "
+                "`repr`; bytes vs str, `ord` / `chr` / `latin-1` vs `utf-8`; slices that silently clamp; `zip` that silently "
+                "truncates; `dict.get` default evaluated eagerly; class attributes shared between instances; exception handlers "
+                "that catch too much (or `except A, B` semantics); regular-expression anchors, greediness and flags (`$` before a "
+                "final newline, `.` and newlines, `re.match` vs `fullmatch`); `isdigit()` on non-ASCII digits; text-mode newline "
+                "translation. Pick one that fits the code you are changing; it must need something specific to manifest and differ "
+                "in mechanism from the earlier changes listed above.")
+
 
 def main():
     rnd, outdir = int(sys.argv[1]), sys.argv[2]
